@@ -114,6 +114,20 @@ PROPS = {
         "exhaustive": False,
         "label": "partial: deadlock-freedom of the modelled pipeline for every capacity and schedule is a theorem; its fit to the code, the error paths and race-freedom are decided by the harness",
     },
+    "C20": {
+        "components": ["ssh"],
+        "trusted_base": [KERNEL, EXTRACT, HARNESSTB, GEN,
+                         "golang.org/x/crypto/ssh (handshake, signature verification, channel and request handling) is used, not modelled; the public-key callback is modelled as list membership on the marshalled key",
+                         "the daemon option table's parse (after --daemon has been seen) is a parameter of the model; the correspondence supplies the implementation parser's own Daemon()/Server() verdict for it",
+                         "hook verifhook.ServeSSH wires the listener exactly as internal/maincmd's daemon mode and internal/rsynctest do"],
+        "assumptions": [
+            "what a session ran is classified by the first bytes on the channel: the daemon greeting (@RSYNCD:) = daemon protocol; nothing plus a non-zero exit status or a denied request = refused; anything else is a violation",
+            "side-effect canaries: a secret file outside every module must never appear in a channel's output, and no path under the scratch directory may be created by a refused command",
+        ],
+        "rule": "listeners: anonymous; authorised with an empty file, a comments-and-blank-lines-only file, one key, several keys with comments / blank lines / trailing comments, keys with options; client keys: three ed25519, RSA 2048, ECDSA P-256 and P-384; handshake result per (listener, key) vs model and expectation. anonymous sessions: 40 fixed command lines (daemon protocol in several spellings; plain server mode reading and writing arbitrary paths; client-mode copies; -e / --rsh; rsync:// and host:: specs; shells; --help / --version; --daemon without --server and vice versa; daemon options such as --config / --no-detach / --gokr.listen; unparsable quoting) plus random lines over that vocabulary; shell / subsystem / pty-req / x11 / agent / signal / window-change requests; direct-tcpip / forwarded-tcpip / x11 / unknown channel types. non-trivial = a session that got the daemon protocol",
+        "exhaustive": False,
+        "label": "full for the gate and key-list logic; the SSH transport itself is trusted",
+    },
     "C10": {
         "components": ["genops", "recvmeta", "ssession", "dryrun"],
         "trusted_base": [KERNEL, EXTRACT, HARNESSTB, GEN, MD4NOTE, FSNOTE,
